@@ -217,6 +217,60 @@ def _worker(args):
     return acc.result()
 
 
+def _inplace_worker(args):
+    """Two histories, one value: a nested change reached by reconstruction and by assignment in place must compose
+    to the same bytes, and those bytes must parse back to the in-place object."""
+    qn, idx, wide = args
+    acc = core.Acc()
+    cls = classes.class_by_name(qn)
+    objs = objects.seed_objects().get(cls, [])
+    if idx >= len(objs):
+        return acc.result()
+    seed = objs[idx]
+    nc = objects._not_constructible()
+    doc = classes.documented_errors()
+    try:
+        variants = objects.inplace_variants(seed, wide)
+    except nc:
+        return acc.result()
+    for tag, rebuilt, inplace in variants:
+        acc.count('transitions')
+        acc.count('inplace_histories')
+        w = {'kind': 'inplace', 'cls': qn, 'seed': idx, 'tag': tag}
+        try:
+            a = rebuilt()
+        except nc:
+            acc.count('not_constructible')
+            continue
+        try:
+            ba = bytes(a.compose())
+        except doc:
+            acc.count('not_composable')
+            continue
+        except Exception:  # noqa - judged by the main exploration
+            continue
+        try:
+            b = inplace()
+        except nc + (AttributeError,):    # frozen nested object: no in-place history exists
+            acc.count('inplace_not_possible')
+            continue
+        acc.state(core.h64('inplace', qn, repr(canon.dump(b))))
+        holder = tag.split('.')[0].split('[')[0] or type(seed).__name__
+        try:
+            bb = bytes(b.compose())
+        except Exception as e:  # noqa
+            acc.violation('inplace_compose_raises:%s:%s:%s' % (compose_definer(b), holder, type(e).__name__),
+                          'after %s was assigned in place compose() of the %s raises %s although the same value '
+                          'built by construction composes' % (tag, cls.__name__, type(e).__name__), w)
+            continue
+        if bb != ba:
+            acc.violation('inplace_differs:%s:%s' % (compose_definer(b), holder),
+                          '%s reached by assignment in place composes to different bytes than the equal object '
+                          'built by construction (%d vs %d bytes, %s)' % (cls.__name__, len(bb), len(ba), tag),
+                          dict(w, inplace=bb[:200], constructed=ba[:200]))
+    return acc.result()
+
+
 def run(ctx):
     if ctx.quick:
         params = (1, 2, False, 4000)
@@ -229,6 +283,7 @@ def run(ctx):
     ctx.notes['classes_without_reachable_object'] = uncovered
     ctx.notes['seed_objects'] = len(items)
     ctx.pmap(_worker, items)
+    ctx.pmap(_inplace_worker, [(qn, i, not ctx.quick) for qn, i in work_items(ctx)])
     ctx.assumptions += [
         'domain of a field = what the class constructor accepts; a value compose() refuses with a documented '
         'error has no composed bytes (counted as not_composable)',
@@ -240,11 +295,23 @@ def run(ctx):
     return ctx.finish(rule='BFS over the object graph: every object within %d single-field deviations of every seed '
                            'object (parsed corpus incl. nested values, all enum members, hand seeds) of every '
                            'concrete class, %d for %d top-level classes; field alphabets of DESIGN §3.2; '
-                           'state = distinct canonical dump' % (params[0], params[1], len(TOP_LEVEL)))
+                           'state = distinct canonical dump; plus, for every seed object, every one-field change of a '
+                           'nested object reached both by reconstruction and by assignment in place (the two '
+                           'histories must compose identically)' % (params[0], params[1], len(TOP_LEVEL)))
 
 
 def replay(ctx, w):
     acc = core.Acc()
+    if w.get('kind') == 'inplace':
+        res = _inplace_worker((w['cls'], w['seed'], True))
+        for v in res[1]:
+            if v['witness'].get('tag') == w['tag']:
+                return v
+        res = _inplace_worker((w['cls'], w['seed'], False))
+        for v in res[1]:
+            if v['witness'].get('tag') == w['tag']:
+                return v
+        return None
     cls = classes.class_by_name(w['cls'])
     so = objects.seed_objects()
     seed = so[cls][w['seed']]
